@@ -336,3 +336,85 @@ Example C09_float_lower_exclusive_nonvacuous :
   f_gt true (f_add true 4602678819172646912 (correction_delta true)) 4602678819172646912 = true /\
   f_gt false (f_add false 1115684864 (correction_delta false)) 1115684864 = false.
 Proof. vm_compute. auto. Qed.
+
+(* --- floats: TWO bounds with an exclusive one -------------------------------------------------
+   x0 = L + u * fl(U - L) with u in [0,1] lies between L and xmax = L + 1.0 * fl(U - L) (IEEE
+   addition / multiplication are monotone); an exclusive end is corrected by the fixed delta.
+   Valid for every byte string under decidable conditions on the two bound values alone; for
+   [L, U) and (L, U] the condition that matters is also necessary (all-ones / all-zero input). *)
+From NV Require Import Lemmas.ArbFloatExcl2.
+
+(* [L, U), `finite` optional, any order *)
+Theorem C09_float_incl_excl :
+  forall (lib : fnlib) (d : decl) (is64 : bool) (vs : list validator) (bl bu : bound) (bs : bytes),
+    d_family d = FFloat is64 -> d_sans d = [] -> d_validation d = Some (RVStandard vs) ->
+    (forall v, In v vs -> v = VFinite \/ v = VGreaterOrEqual bl \/ v = VLess bu) ->
+    fboundaries d vs None None =
+      (Some {| fb_val := bval d bl; fb_incl := true |}, Some {| fb_val := bval d bu; fb_incl := false |}) ->
+    bytes_ok bs = true ->
+    f_is_finite is64 (f_sub is64 (bval d bu) (bval d bl)) = true ->
+    f_le is64 (bval d bl) (f_sub is64 (bval d bu) (correction_delta is64)) = true ->
+    f_lt is64 (f_sub is64 (f_xmax is64 (bval d bl) (bval d bu)) (correction_delta is64)) (bval d bu) = true ->
+    exists x, arb_float lib d bs = OOk (VF x) /\
+              f_le is64 (bval d bl) x = true /\ f_lt is64 x (bval d bu) = true /\ f_is_finite is64 x = true.
+Proof. exact arb_float_incl_excl_ok. Qed.
+Print Assumptions C09_float_incl_excl.
+
+(* ... and the overshoot condition is necessary when the scaled value can reach U at all: this is
+   the recorded class float_exclusive_upper_overshoot_exceeds_delta (and delta_absorbed at U) *)
+Theorem C09_float_incl_excl_iff :
+  forall (lib : fnlib) (d : decl) (is64 : bool) (vs : list validator) (bl bu : bound),
+    d_family d = FFloat is64 -> d_sans d = [] -> d_validation d = Some (RVStandard vs) ->
+    (forall v, In v vs -> v = VFinite \/ v = VGreaterOrEqual bl \/ v = VLess bu) ->
+    fboundaries d vs None None =
+      (Some {| fb_val := bval d bl; fb_incl := true |}, Some {| fb_val := bval d bu; fb_incl := false |}) ->
+    f_is_finite is64 (f_sub is64 (bval d bu) (bval d bl)) = true ->
+    f_le is64 (bval d bl) (f_sub is64 (bval d bu) (correction_delta is64)) = true ->
+    f_ge is64 (f_xmax is64 (bval d bl) (bval d bu)) (bval d bu) = true ->
+    ((forall bs, bytes_ok bs = true ->
+        exists x, arb_float lib d bs = OOk (VF x) /\
+                  f_le is64 (bval d bl) x = true /\ f_lt is64 x (bval d bu) = true /\ f_is_finite is64 x = true) <->
+     f_lt is64 (f_sub is64 (f_xmax is64 (bval d bl) (bval d bu)) (correction_delta is64)) (bval d bu) = true).
+Proof. exact arb_float_incl_excl_iff. Qed.
+Print Assumptions C09_float_incl_excl_iff.
+
+(* (L, U]: exactly when the delta is not absorbed at L *)
+Theorem C09_float_excl_incl_iff :
+  forall (lib : fnlib) (d : decl) (is64 : bool) (vs : list validator) (bl bu : bound),
+    d_family d = FFloat is64 -> d_sans d = [] -> d_validation d = Some (RVStandard vs) ->
+    (forall v, In v vs -> v = VFinite \/ v = VGreater bl \/ v = VLessOrEqual bu) ->
+    fboundaries d vs None None =
+      (Some {| fb_val := bval d bl; fb_incl := false |}, Some {| fb_val := bval d bu; fb_incl := true |}) ->
+    f_is_finite is64 (f_sub is64 (bval d bu) (bval d bl)) = true ->
+    f_lt is64 (bval d bl) (bval d bu) = true ->
+    ((forall bs, bytes_ok bs = true ->
+        exists x, arb_float lib d bs = OOk (VF x) /\
+                  f_lt is64 (bval d bl) x = true /\ f_le is64 x (bval d bu) = true /\ f_is_finite is64 x = true) <->
+     f_gt is64 (f_add is64 (bval d bl) (correction_delta is64)) (bval d bl) = true).
+Proof. exact arb_float_excl_incl_iff. Qed.
+Print Assumptions C09_float_excl_incl_iff.
+
+(* (L, U): sufficient conditions *)
+Theorem C09_float_excl_excl :
+  forall (lib : fnlib) (d : decl) (is64 : bool) (vs : list validator) (bl bu : bound) (bs : bytes),
+    d_family d = FFloat is64 -> d_sans d = [] -> d_validation d = Some (RVStandard vs) ->
+    (forall v, In v vs -> v = VFinite \/ v = VGreater bl \/ v = VLess bu) ->
+    fboundaries d vs None None =
+      (Some {| fb_val := bval d bl; fb_incl := false |}, Some {| fb_val := bval d bu; fb_incl := false |}) ->
+    bytes_ok bs = true ->
+    f_is_finite is64 (f_sub is64 (bval d bu) (bval d bl)) = true ->
+    f_lt is64 (bval d bl) (f_sub is64 (bval d bu) (correction_delta is64)) = true ->
+    f_lt is64 (f_sub is64 (f_xmax is64 (bval d bl) (bval d bu)) (correction_delta is64)) (bval d bu) = true ->
+    f_gt is64 (f_add is64 (bval d bl) (correction_delta is64)) (bval d bl) = true ->
+    f_lt is64 (f_add is64 (bval d bl) (correction_delta is64)) (bval d bu) = true ->
+    exists x, arb_float lib d bs = OOk (VF x) /\
+              f_lt is64 (bval d bl) x = true /\ f_lt is64 x (bval d bu) = true /\ f_is_finite is64 x = true.
+Proof. exact arb_float_excl_excl_ok. Qed.
+Print Assumptions C09_float_excl_excl.
+
+(* the conditions on concrete bounds: [0.0, 1.0) on f64 meets them; [64.0, 65.0) on f32 does not
+   (65.0 - 0.000002 rounds back to 65.0) *)
+Example C09_float_incl_excl_conditions :
+  f_lt true (f_sub true (f_xmax true 0 4607182418800017408) (correction_delta true)) 4607182418800017408 = true /\
+  f_lt false (f_sub false (f_xmax false 1115684864 1115815936) (correction_delta false)) 1115815936 = false.
+Proof. vm_compute. auto. Qed.
